@@ -1,5 +1,5 @@
 (* C05 — best_score / best_para are the true best of this call's rows.  Statements only. *)
-Require Import Base StopRun Converter Driver DriverObs DriverFacts StopFacts C05_proofs C05_sim.
+Require Import Base StopRun Converter Driver DriverObs DriverFacts StopFacts C05_proofs C05_sim PyPrims PyPrimsQ DriverGen DriverTie.
 
 (* for every optimizer, objective, verbosity path and prior history: best_score is never NaN, no row of
    this call is strictly better, best_value is the decoded position of the FIRST row attaining best_score
@@ -41,3 +41,26 @@ Proof. vm_compute. split; reflexivity. Qed.
 Example C05_strict_test_refuted :
   pb_pos (new2best_strict pbar_init SNInf [0]) = None /\ pb_pos (new2best pbar_init SNInf [0]) = Some [0].
 Proof. exact strict_update_loses_neginf_position. Qed.
+
+(* ---------- the definitions GENERATED from /repo's _progress_bar.py (generated/DriverGen.v) ---------- *)
+(* both translated update paths refine the model's (for every bar state, score, position, iteration number) *)
+Theorem C05_source_update_lvl0_refines : forall g s p n,
+  exists g', g_pbar_update_lvl0 g s p n = Ok g' /\ abs_pb g' = pbar_update_lvl0 (abs_pb g) s p n.
+Proof. exact update_lvl0_tie. Qed.
+Print Assumptions C05_source_update_lvl0_refines.
+Theorem C05_source_update_lvl1_refines : forall g s p n,
+  exists g', g_pbar_update_lvl1 g s p n = Ok g' /\ abs_pb g' = pbar_update_lvl1 (abs_pb g) s p n.
+Proof. exact update_lvl1_tie. Qed.
+Print Assumptions C05_source_update_lvl1_refines.
+(* hence the translated silent and tqdm paths agree on (score_best, pos_best) and neither raises *)
+Theorem C05_source_verbosity_paths_agree : forall g s p n, exists g0 g1,
+  g_pbar_update_lvl0 g s p n = Ok g0 /\ g_pbar_update_lvl1 g s p n = Ok g1 /\
+  pb_score_best_ g1 = pb_score_best_ g0 /\ pb_pos_best g1 = pb_pos_best g0.
+Proof. exact source_verbosity_paths_agree. Qed.
+Print Assumptions C05_source_verbosity_paths_agree.
+(* the translated _new2best adopts (score, position) together, exactly under `>` or first-tie-with-no-position *)
+Theorem C05_source_new2best_spec : forall g s p n, exists g', g_pbar_new2best g s p n = Ok g' /\
+  (pb_score_best_ g', pb_pos_best g') =
+  (if better s (pb_score_best_ g) (pb_pos_best g) then (s, Some p) else (pb_score_best_ g, pb_pos_best g)).
+Proof. exact source_new2best_spec. Qed.
+Print Assumptions C05_source_new2best_spec.
